@@ -164,7 +164,7 @@ def wrapper_contract(world, target, orig_path, params, pos_names, kw_names=(), l
         requires=lambda c: {'admin-namespace-is-not-none': c.pre.get('adm', 'admin_namespace').leaf() != NONE},
         cases=[Case('transparent', post=post),
                Case('original-raises-or-unknown-client', kind='raise', exc='Exception', post=propagated)],
-        loops=loops, modifies=[], props=['C18'], env_hook=lambda eng, ctx: setattr(eng.ext, 'recorder_raises', {orig_path}))
+        loops=loops, modifies=[], props=['C18'], env_hook=lambda eng, ctx: (setattr(eng.ext, 'recorder_raises', {orig_path}), setattr(eng.ext, 'recorder_lookup_fails', True)))
 
 
 _reg_w = register
